@@ -10,7 +10,7 @@ typedef long hid_t;
 #define H5_IDS 8   /* (stub H5Fget_obj_ids copies exactly 8 entries) */                                   /* size of the ghost identifier table */
 typedef struct { hid_t *data; size_t n; } vec_hid;
 typedef struct { int _g; } H5GroupC;
-typedef struct { H5GroupC data, metadata, root; hid_t hid; } FileHDF5c;
+typedef struct { H5GroupC data, metadata, root; hid_t hid; FileMode mode; } FileHDF5c;     /* members of FileHDF5 (hid is inherited from H5Object) */
 extern int gh_ref[H5_IDS];                          /* reference count per identifier */
 extern bool gh_is_open; extern ssize_t gh_obj_count, gh_ids_result; extern hid_t gh_listed[H5_IDS];
 extern int gh_group_closes, gh_file_closes; extern int gh_ref_k_at_file_close; extern int gh_group_closes_at_file_close;
